@@ -141,6 +141,7 @@ Proof.
     { unfold shared. rewrite (proj2 (Nat.leb_le _ _)) by lia. rewrite <- andb_assoc. exact Blk. }
     rewrite (proj2 (Nat.leb_le 2 (bref b))) by lia.
     assert (Hu : bused b <= len') by (destruct Pre as [?|[? _]]; lia).
+    rewrite (proj2 (Nat.ltb_ge len' (bused b))) by lia.
     pose proof (fresh_copy b len' (bnc b) (conj L (conj U A)) Hu) as F.
     destruct (buffer_set _ _ 0 _) as [nx'| |]; try contradiction.
     destruct F as [F1 [F2 [F3 [F4 [F5 [F6 [F7 F8]]]]]]].
